@@ -26,6 +26,8 @@ STRINGS = ["", "abc", "it's", "''", "'", "a''b", "x' OR '1'='1", "x' OR '1'='1' 
            "status", "orders.status", "1=1", "\"q\"", "%", "_", ".", "__", "9" * 40, "z" * 300 + "'", "\u00e9t\u00e9", "\u4e2d\u6587'", "\U0001F600",
            # values that name ANOTHER registered model (a joinable one): nothing in a value may pull a model into the query
            "ZZ TOP", "Zz Top", "zz  top", " zz top", "zz top",
+           # values that BEGIN like a number and go on as SQL (a check that only looks at the start of the text lets them through)
+           "1000 OR 1=1", "100 -- x", "7 UNION SELECT 1", "100", "1e3 OR TRUE", "5) OR (1=1", "-3.5 OR amount IS NOT NULL",
            "customers.region", "\\' customers.id", "x\\' OR customers.id = 1 --", "' customers.region = '", "a\\\\' customers.id", "customers.id = orders.customer_id"]
 
 
@@ -174,8 +176,10 @@ def make_layer():
 TEMPLATES = {
     "string": ["orders.status = {{ p_string }}", "orders.status <> {{p_string}} AND orders.amount > 1", "orders.status IN ({{ p_string }}, 'k')",
                # the same column and operator twice, once with a fixed literal: a value that differs from it only in case / spacing is still a second condition
-               "orders.status <> 'zz top' AND orders.status <> {{ p_string }}"],
-    "date": ["orders.created >= {{ p_date }}", "orders.created = {{ p_date }}", "orders.created BETWEEN {{ p_date }} AND '2030-01-01'"],
+               "orders.status <> 'zz top' AND orders.status <> {{ p_string }}",
+               # a text parameter compared with a NUMERIC dimension, on either side of the operator: still one string literal
+               "orders.amount >= {{ p_string }}", "{{ p_string }} < orders.amount AND orders.status = 'a'"],
+    "date": ["orders.created >= {{ p_date }}", "orders.created = {{ p_date }}", "orders.created BETWEEN {{ p_date }} AND '2030-01-01'", "orders.amount <> {{ p_date }}"],
     "number": ["orders.amount > {{ p_number }}", "orders.amount = {{ p_number }} AND orders.status = 'a'"],
     "unquoted": ["orders.{{ p_unquoted }} = 'a'"],
     "yesno": ["orders.flag = {{ p_yesno }}"],
